@@ -142,8 +142,10 @@ class EffectivePotential(ABC):
         guesses = initialGuess.resizeFields(numPoints, initialGuess.numFields())
         T = np.resize(T, (numPoints))
 
-        resValue = np.empty_like(T)
-        resLocation = np.empty_like(guesses)
+        # results are floats whatever the type of the input (an integer-typed guess or
+        # temperature would otherwise truncate the minimum and the value)
+        resValue = np.empty_like(T, dtype=float)
+        resLocation = np.empty_like(guesses, dtype=float)
 
         for i in range(0, numPoints):
 
